@@ -107,9 +107,24 @@ def genC05 (tier : String) (seed : Nat) : IO Unit := do
       hout.putStrLn s!"c05.den {enc (String.ofList s.render)} A {joinSp (OH.Driver.Nz.showExpr s.denote)}"
   hout.flush
 
+/-- `ohdriver gen c06 <tier> <seed>`: the same random sentences as sources of `c06.print` / `c06.printn`
+lines (every constructor of the sentence grammar reaches the printers: shapes the string-level
+generator of the harness does not produce, e.g. every position of a weekday set together with an
+offset) -/
+def genC06 (tier : String) (seed : Nat) : IO Unit := do
+  let hout ← IO.getStdout
+  let n := if tier == "thorough" then 100000 else 4000
+  let mut st := OH.Spec.SentGen.seedState (seed + 77)
+  for i in [0:n] do
+    let (s, st') := OH.Spec.SentGen.genSentence.run st
+    st := st'
+    hout.putStrLn s!"{if i % 4 == 3 then "c06.printn" else "c06.print"} {enc (String.ofList s.render)}"
+  hout.flush
+
 def main (args : List String) : IO Unit := do
   match args with
   | ["gen", "c05", tier, seed] => genC05 tier (seed.toNat?.getD 1)
+  | ["gen", "c06", tier, seed] => genC06 tier (seed.toNat?.getD 1)
   | _ =>
   let hin ← IO.getStdin
   let hout ← IO.getStdout
